@@ -47,6 +47,7 @@ type c18RunArgs struct {
 	UEs    int   `json:"ues"`
 	GapMs  int64 `json:"gapMs"` // virtual time between requests
 	Settle int   `json:"settleS"`
+	Subs   int   `json:"subs,omitempty"` // >0: that many different subscribers, each served once (create, update, release)
 }
 
 type c18RunOut struct {
@@ -62,6 +63,9 @@ func c18RunJob(t *testing.T, raw json.RawMessage) (any, error) {
 	var a c18RunArgs
 	json.Unmarshal(raw, &a)
 	var out c18RunOut
+	if a.Subs > 0 {
+		return c18SubscribersJob(t, a)
+	}
 	supis := []string{supiA, supiB}[:a.UEs]
 	cfg := WorldCfg{Accounts: []Account{{supiA, 1, "100000000", "1"}, {supiB, 1, "100000000", "1"}}, HorizonS: 24 * 3600, StepCap: 50_000_000}
 	o := runWorld(t, cfg, nil, func(w *World) {
@@ -99,6 +103,46 @@ func c18RunJob(t *testing.T, raw json.RawMessage) (any, error) {
 				time.Sleep(time.Duration(a.Settle) * time.Second)
 				vs.Quiesce()
 			}
+			s := w.Snapshot(true)
+			out.After = [2]int{s.Open, s.Gor}
+		})
+	}, nil)
+	if o.Panic != "" || o.Res.Err != "" {
+		out.Engine = o.Panic + o.Res.Err
+	}
+	if o.Res.Deadlock {
+		out.Fail = append(out.Fail, fmt.Sprint("blocked forever: ", o.Res.Blocked))
+	}
+	return out, nil
+}
+
+// c18SubscribersJob: many different subscribers, each served once; resources after every subscriber.
+func c18SubscribersJob(t *testing.T, a c18RunArgs) (any, error) {
+	var out c18RunOut
+	var supis []string
+	cfg := WorldCfg{HorizonS: 24 * 3600, StepCap: 50_000_000}
+	for i := 0; i < a.Subs; i++ {
+		supi := fmt.Sprintf("imsi-20893%010d", 5000+i)
+		supis = append(supis, supi)
+		cfg.Accounts = append(cfg.Accounts, Account{supi, 1, "100000", "1"})
+	}
+	o := runWorld(t, cfg, nil, func(w *World) {
+		vs.Go("T1", func() {
+			for i := range supis {
+				h := w.ExecOps(supis, []Op{mkCreate(i, "smf1"), usageOp("update", 0, 1, 50, 0, int32(10*i+1)), usageOp("release", 0, 1, -1, 50, int32(10*i+2), "FINAL")}, 1<<30, false)
+				for _, st := range h.Steps {
+					if st.Resp.Code/100 != 2 {
+						out.Fail = append(out.Fail, fmt.Sprintf("subscriber %d: %s answered %d", i, st.Op.K, st.Resp.Code))
+					}
+				}
+				vs.Quiesce()
+				s := w.Snapshot(true)
+				out.Open = append(out.Open, s.Open)
+				out.Gor = append(out.Gor, s.Gor)
+				out.Dials = s.Dials
+			}
+			time.Sleep(60 * time.Second)
+			vs.Quiesce()
 			s := w.Snapshot(true)
 			out.After = [2]int{s.Open, s.Gor}
 		})
@@ -175,6 +219,10 @@ func init() {
 				jobs = append(jobs, Job{Kind: "c18run", Args: mustJSON(a)})
 				descr = append(descr, a)
 			}
+			// as many different subscribers, each served once
+			sa := c18RunArgs{N: n, UEs: 1, Subs: n, Settle: 60}
+			jobs = append(jobs, Job{Kind: "c18run", Args: mustJSON(sa)})
+			descr = append(descr, sa)
 		}
 		pool.Timeout = 40 * time.Minute
 		var runs []map[string]any
@@ -182,6 +230,9 @@ func init() {
 		for i, r := range pool.RunAll(jobs) {
 			a := descr[i]
 			name := fmt.Sprintf("N=%d subscribers=%d gap=%dms", a.N, a.UEs, a.GapMs)
+			if a.Subs > 0 {
+				name = fmt.Sprintf("%d different subscribers, one session each", a.Subs)
+			}
 			if r.Crash != "" {
 				rep.Finding("process-crash-or-timeout", name+": "+oneLine(r.Crash, 300), map[string]any{"job": json.RawMessage(jobs[i].Args), "kind": "c18run"})
 				continue
